@@ -62,6 +62,23 @@ def _path_family(rng, n):
     return edges
 
 
+def _staircases(rng, sizes, shuffle_components=False):
+    """many-phase family: disjoint components; the component of size k has edges (u_i, v_{i+1}) [listed first] and (u_i, v_i):
+    the greedy first phase leaves u_k free and the only augmenting path of that component runs through all its 2k vertices,
+    so components of pairwise different sizes force one Hopcroft-Karp phase per size"""
+    comps = list(sizes)
+    if shuffle_components:
+        rng.shuffle(comps)
+    edges, off = [], 0
+    for k in comps:
+        for i in range(k):
+            if i + 1 < k:
+                edges.append((off + i, off + i + 1))
+            edges.append((off + i, off + i))
+        off += k
+    return off, edges
+
+
 def cases(rng, tier):
     out = []
     def add(a, b, edges):
@@ -82,6 +99,13 @@ def cases(rng, tier):
     for _ in range(n_l):
         a, b = rng.randint(7, 60 if tier != 'quick' else 25), rng.randint(7, 60 if tier != 'quick' else 25)
         add(a, b, _shuffle_dup(rng, _random_graph(rng, a, b, rng.choice([0.02, 0.05, 0.1, 0.3, 0.6, 0.95]))))
+    # graphs that need many phases (more than sqrt(num_u))
+    for sizes in ([[2, 3, 4, 5], [1, 2, 3, 4, 5, 6], [3, 5, 7, 9]] if tier != 'thorough' else
+                  [[2, 3, 4, 5], [1, 2, 3, 4, 5, 6], [3, 5, 7, 9], [1, 2, 3, 4, 5, 6, 7, 8, 9], [2, 4, 6, 8, 10, 12]]):
+        n, e = _staircases(rng, sizes)
+        add(n, n, e)
+        n, e = _staircases(rng, sizes, shuffle_components=True)
+        add(n, n, e)
     for n in ([3, 5, 8, 13] if tier == 'quick' else [3, 5, 8, 13, 21, 34, 55]):
         e = _path_family(rng, n)
         add(n, n, e)
